@@ -27,7 +27,7 @@ THEOREMS = [
     'C17.slip_rigid', 'C17.slip_zero_away', 'C17.slip_rigid_of_stable', 'C17.dd_is_difference', 'C17.dd_of_stable',
     'C17.disregistry_rigid', 'C17.disregistry_rigid_full',
     # homogeneous deformation gradient
-    'C17.dv_homogeneous', 'C17.dd_homogeneous', 'C17.G_homogeneous', 'C17.G_exact_fit', 'C17.invT_of_rotation', 'C17.bestP_of_isBest', 'C17.bestP_none',
+    'C17.dv_homogeneous', 'C17.dd_homogeneous', 'C17.G_homogeneous', 'C17.G_exact_fit', 'C17.invT_of_rotation', 'C17.bestP_of_isBest', 'C17.bestP_none', 'C17.isBest_of_strict',
     'C17.matchPQ_pairing_partial', 'C17.solveG_homogeneous', 'C17.strainG_homogeneous', 'C17.measures_homogeneous',
     'C17.strain_symm', 'C17.rotation_antisymm', 'C17.strain_add_rotation', 'C17.strain_one', 'C17.invariants_charpoly',
     'C17.nye_zero',
